@@ -1,16 +1,83 @@
+// Command vsim is the driver of the go-ucfg simulation checks: it snapshots
+// /repo's working tree, instruments the copy, builds the harness against it,
+// runs the seeded search on all cores, minimises and confirms violations,
+// applies the known-findings file and writes the evidence.
+//
+//	vsim check <property> [--tier quick|thorough]
+//	vsim replay <replay-file>
+//	vsim selftest fidelity|determinism
+//
+// Exit status: 0 property held on everything explored; 1 at least one
+// VIOLATION line; 2 infrastructure trouble (never a verdict).
 package main
 
 import (
 	"fmt"
-
-	"golang.org/x/tools/go/packages"
+	"os"
+	"strings"
 )
 
+func usage() {
+	fmt.Fprintln(os.Stderr, "usage: vsim check <id> [--tier quick|thorough] | vsim replay <file> | vsim selftest <name> | vsim build")
+	os.Exit(2)
+}
+
 func main() {
-	cfg := &packages.Config{Mode: packages.NeedName | packages.NeedFiles | packages.NeedSyntax | packages.NeedTypes | packages.NeedTypesInfo | packages.NeedImports | packages.NeedDeps, Dir: "/repo"}
-	pkgs, err := packages.Load(cfg, "./...")
-	fmt.Println(len(pkgs), err)
-	for _, p := range pkgs {
-		fmt.Println(p.PkgPath, len(p.Syntax), p.Errors)
+	if len(os.Args) < 2 {
+		usage()
+	}
+	defer func() {
+		if p := recover(); p != nil {
+			if ie, ok := p.(infraError); ok {
+				fmt.Fprintln(os.Stderr, "vsim: infrastructure error:", string(ie))
+				cleanupAll()
+				os.Exit(2)
+			}
+			panic(p)
+		}
+	}()
+	switch os.Args[1] {
+	case "check":
+		if len(os.Args) < 3 {
+			usage()
+		}
+		id := os.Args[2]
+		tier := os.Getenv("VERIF_TIER")
+		for i := 3; i < len(os.Args); i++ {
+			if os.Args[i] == "--tier" && i+1 < len(os.Args) {
+				tier = os.Args[i+1]
+				i++
+			} else if strings.HasPrefix(os.Args[i], "--tier=") {
+				tier = strings.TrimPrefix(os.Args[i], "--tier=")
+			}
+		}
+		if tier == "" {
+			tier = "quick"
+		}
+		if tier != "quick" && tier != "thorough" {
+			usage()
+		}
+		code := cmdCheck(id, tier)
+		cleanupAll()
+		os.Exit(code)
+	case "replay":
+		if len(os.Args) < 3 {
+			usage()
+		}
+		code := cmdReplay(os.Args[2])
+		cleanupAll()
+		os.Exit(code)
+	case "selftest":
+		if len(os.Args) < 3 {
+			usage()
+		}
+		code := cmdSelftest(os.Args[2], os.Args[3:])
+		cleanupAll()
+		os.Exit(code)
+	case "build":
+		b := prepare("C12", true)
+		fmt.Println(b.dir)
+	default:
+		usage()
 	}
 }
